@@ -44,6 +44,8 @@ def build_controller(cfg):
                      nphases=cfg["nphases"], rdphase=cfg["rdphase"], wrphase=cfg["wrphase"], cl=cfg["cl"], cwl=cfg["cwl"],
                      read_latency=cfg["read_latency"], write_latency=cfg["write_latency"], nranks=1 << cfg["rankbits"])
     gs = GeomSettings(cfg["bankbits"], cfg["rowbits"], cfg["colbits"])
+    # small arrays, but at least 11 address lines so that A10 (precharge-all / auto-precharge flag) exists
+    gs.addressbits = max(gs.addressbits, cfg.get("addressbits", 0))
     ts = TimingSettings(**cfg["timing"])
     c = cfg["ctrl"]
     cs = ControllerSettings(cmd_buffer_depth=c["cmd_buffer_depth"], read_time=c["read_time"], write_time=c["write_time"],
@@ -56,7 +58,7 @@ def model_cfg_line(cfg):
     t, c = cfg["timing"], cfg["ctrl"]
     wl = -(-cfg["cwl"] // cfg["nphases"])
     nbm = (1 << cfg["rankbits"]) << cfg["bankbits"]
-    abits = max(cfg["rowbits"], cfg["colbits"])
+    abits = max(cfg["rowbits"], cfg["colbits"], cfg.get("addressbits", 0))
     def opt(v):
         return [0, 0] if v is None else [1, v]
     xs = [nbm, cfg["bankbits"], cfg["rankbits"], cfg["nphases"], cfg["rdphase"], cfg["wrphase"],
@@ -204,3 +206,183 @@ def run_dram_monitor(cfg, lines, obs, nbm, timing=True):
     viol = next((x for x in out[1:-1] if x.startswith("VIOL")), None)
     refs = [int(x) for x in out[-1].split()[1:]]
     return viol, refs
+
+
+# ------------------------------------------------------------------------------------------------ whole core
+BURST_MODEL = {"SDR": 1, "DDR": 2, "LPDDR": 2, "DDR2": 2, "DDR3": 2, "DDR4": 2}
+
+
+def rand_core_cfg(rnd):
+    """whole-core configuration: single rank (the simulation PHY model has one), phase count consistent with the memtype's
+    burst so that one controller word = one DRAM burst"""
+    while True:
+        cfg = rand_cfg(rnd)
+        cfg["rankbits"] = 0
+        bl = {"SDR": cfg["nphases"], "DDR": 4, "LPDDR": 4, "DDR2": 4, "DDR3": 8, "DDR4": 8}[cfg["memtype"]]
+        if BURST_MODEL[cfg["memtype"]] * cfg["nphases"] != bl:
+            continue          # e.g. DDR3 1:2 would need two controller words per burst: not a configuration the PHYs offer
+        cfg["nmasters"] = rnd.choice([1, 2, 2, 3, 4, 8])
+        cfg["bba"] = rnd.choice([0, 0, 0, cfg["colbits"] - cfg["align"] + rnd.randint(0, 3)])
+        cfg["dfi_databits"] = rnd.choice([16, 32])
+        cfg["bankbits"] = rnd.choice([1, 2, 3])
+        # Migen's simulator lowers memories to signal arrays: keep the DRAM arrays small (few rows), keep 11+ address lines
+        cfg["rowbits"] = rnd.choice([3, 4, 5]); cfg["addressbits"] = max(11, cfg["colbits"] + (1 if cfg["colbits"] > 10 else 0))
+        return cfg
+
+
+class CoreDut:
+    pass
+
+
+def build_core(cfg):
+    from migen import Module
+    from litedram.core.crossbar import LiteDRAMCrossbar
+    from litedram.phy.model import SDRAMPHYModel
+    from litedram.common import GeomSettings
+    ctl, ps, gs, ts = build_controller(cfg)
+    if cfg.get("bba"):
+        ctl.settings.bank_byte_alignment = (cfg["dfi_databits"] * cfg["nphases"] // 8) << cfg["bba"]
+
+    class M: pass
+    mod = M(); mod.memtype = cfg["memtype"]; mod.geom_settings = gs
+
+    class Core(Module):
+        def __init__(self):
+            self.submodules.phy = SDRAMPHYModel(mod, settings=ps)
+            self.submodules.controller = ctl
+            self.comb += ctl.dfi.connect(self.phy.dfi)
+            self.submodules.crossbar = LiteDRAMCrossbar(ctl.interface)
+            self.ports = [self.crossbar.get_port() for _ in range(cfg["nmasters"])]
+    return Core()
+
+
+def core_cfg_line(cfg):
+    return model_cfg_line(cfg) + " %d %d %d %d %d %d" % (cfg["nmasters"], cfg.get("bba", 0), BURST_MODEL[cfg["memtype"]],
+                                                       cfg["dfi_databits"], cfg["write_latency"], cfg["read_latency"])
+
+
+class Master:
+    """A native-port master that keeps the contract of C01: holds each command until accepted, offers the data of a write
+    with the command (FIFO of write words, head presented with valid), always accepts read data."""
+    def __init__(self, rnd, aw, dw, pattern):
+        self.rnd = rnd; self.aw = aw; self.dw = dw; self.pattern = pattern
+        self.cmd = None              # (we, addr)
+        self.wq = []                 # write words not yet taken: (data, we)
+        self.mode()
+
+    def mode(self):
+        r = self.rnd
+        self.p_new = r.choice([0.03, 0.2, 0.7, 1.0])
+        self.p_we = r.choice([0.0, 0.3, 0.5, 1.0])
+        self.len = r.randrange(40, 150)
+        self.hot = [r.getrandbits(self.aw) for _ in range(r.choice([1, 2, 4, 16]))]
+        self.seq = r.getrandbits(self.aw)
+
+    def next(self, cmd_ready, wdata_ready):
+        r = self.rnd
+        ev = None
+        if self.cmd is not None and cmd_ready:
+            we, addr = self.cmd
+            ev = (we, addr) + (self.wq[-1] if we else (0, 0))
+            self.cmd = None
+        if wdata_ready and self.wq:
+            self.wq.pop(0)
+        self.len -= 1
+        if self.len <= 0:
+            self.mode()
+        if self.cmd is None and r.random() < self.p_new:
+            we = int(r.random() < self.p_we)
+            k = r.random()
+            if k < 0.5:
+                addr = r.choice(self.hot)
+            elif k < 0.8:
+                self.seq = (self.seq + 1) % (1 << self.aw); addr = self.seq
+            else:
+                addr = r.getrandbits(self.aw)
+            self.cmd = (we, addr)
+            if we:
+                nb = self.dw // 8
+                mask = r.choice([(1 << nb) - 1, (1 << nb) - 1, r.getrandbits(nb), 1 << r.randrange(nb)])
+                self.wq.append((r.getrandbits(self.dw), mask))
+        drive = dict(cmd_valid=int(self.cmd is not None), cmd_we=self.cmd[0] if self.cmd else 0, cmd_addr=self.cmd[1] if self.cmd else 0,
+                     wdata_valid=int(bool(self.wq)), wdata=self.wq[0][0] if self.wq else 0, wdata_we=self.wq[0][1] if self.wq else 0)
+        return drive, ev
+
+
+def cosim_core(cfg, seed, ncycles):
+    """Co-simulate the real crossbar+controller+SDRAMPHYModel against Model/Core.lean; returns port traces for the monitors."""
+    from migen import run_simulation
+    rnd = random.Random(seed)
+    dut = build_core(cfg)
+    ports = dut.ports
+    nm = len(ports)
+    aw = len(ports[0].cmd.addr); dw = len(ports[0].wdata.data)
+    masters = [Master(random.Random("%s-m%d" % (seed, i)), aw, dw, None) for i in range(nm)]
+    lines = [core_cfg_line(cfg), " ".join(["0 0 0 0 0"] * nm)]
+    obs = []; events = []; offered = []
+
+    def gen():
+        fb = [(0, 0)] * nm
+        for p in ports:
+            yield p.rdata.ready.eq(1)
+        for t in range(ncycles):
+            if t > 0:
+                o = []; fb = []; evrow = []
+                for p in ports:
+                    cr = (yield p.cmd.ready); wr = (yield p.wdata.ready); rv = (yield p.rdata.valid); rd = (yield p.rdata.data)
+                    o += [cr, wr, rv, rd]; fb.append((cr, wr)); evrow.append((rv, rd))
+                for ph in dut.controller.dfi.phases:
+                    o += [(yield ph.cs_n), (yield ph.bank), (yield ph.address), (yield ph.cas_n), (yield ph.ras_n), (yield ph.we_n),
+                          (yield ph.rddata_en), (yield ph.wrdata_en)]
+                obs.append(" ".join(map(str, o)))
+                events.append(evrow)
+            row = []; accs = []; offs = []
+            for m, p, (cr, wr) in zip(masters, ports, fb):
+                was_valid = m.cmd is not None
+                d, ev = m.next(cr, wr)
+                accs.append(ev)
+                offs.append(d["cmd_valid"])
+                yield p.cmd.valid.eq(d["cmd_valid"]); yield p.cmd.we.eq(d["cmd_we"]); yield p.cmd.addr.eq(d["cmd_addr"])
+                yield p.wdata.valid.eq(d["wdata_valid"]); yield p.wdata.data.eq(d["wdata"]); yield p.wdata.we.eq(d["wdata_we"])
+                row.append("%d %d %d %d %d" % (d["cmd_valid"], d["cmd_we"], d["cmd_addr"], d["wdata"], d["wdata_we"]))
+            lines.append(" ".join(row))
+            if t > 0:
+                events[-1] = (accs, events[-1])     # accs: commands accepted in the cycle just observed
+            offered.append(offs)
+            yield
+    run_simulation(dut, gen())
+    mo = core.run_driver("core", lines)[2:]
+    n = min(len(mo), len(obs))
+    mismatch = None
+    for i in range(n):
+        if mo[i] != obs[i]:
+            a, b = obs[i].split(), mo[i].split()
+            k = next(j for j in range(len(a)) if a[j] != b[j])
+            what = ("port%d.%s" % (k // 4, ["cmd.ready", "wdata.ready", "rdata.valid", "rdata.data"][k % 4]) if k < 4 * nm
+                    else "dfi.p%d.%s" % ((k - 4 * nm) // 8, ["cs_n", "bank", "address", "cas_n", "ras_n", "we_n", "rddata_en", "wrdata_en"][(k - 4 * nm) % 8]))
+            mismatch = dict(cycle=i, signal=what, impl=a[k], model=b[k], inputs=lines[max(2, i - 3):i + 3])
+            break
+    return dict(mismatch=mismatch, lines=lines, obs=obs[:n], events=events[:n], offered=offered, cycles=n, nm=nm, dw=dw, aw=aw, dut=dut)
+
+
+def run_port_monitor(nm, dw, events):
+    """Lean port-memory monitor (Spec/PortMemory) on the implementation's port-level events."""
+    ml = ["%d %d" % (nm, dw // 8)]
+    for accs, rv in events:
+        row = []
+        for p in range(nm):
+            a = accs[p]
+            if a is not None:
+                row += [1, a[0], a[1], a[2], a[3]]
+            else:
+                row += [0, 0, 0, 0, 0]
+            row += [rv[p][0], rv[p][1] if rv[p][0] else 0]
+        ml.append(" ".join(map(str, row)))
+    ml.append("999999")
+    out = core.run_driver("portmon", ml)
+    viol = next((x for x in out[1:-1] if x.startswith("VIOL")), None)
+    tail = out[-1].split()
+    k = tail.index("mem")
+    pending = [int(x) for x in tail[1:k]]
+    mem = {int(tail[i]): int(tail[i + 1]) for i in range(k + 1, len(tail), 2)}
+    return viol, pending, mem
